@@ -111,6 +111,10 @@ TrCancel == /\ Is("cancel")
 TrNewConn == /\ Is("newconn") /\ Refuse
              /\ Ev.r = "refused" \/ (Ev.r = "connected" /\ ~Ev.ours)
              /\ Keep /\ Mark
+(* a client that does not speak TLS came to the TLS listener and went (its handshake failed): nothing of the *)
+(* contract's state changes, in particular it is not a session anybody has to wait for                      *)
+TrPlainConn == /\ Is("plainconn")
+               /\ UNCHANGED <<phase, ss, plan, drain, store, dirty, scanner, hub>> /\ Keep /\ Mark
 TrDrain == /\ Is("drain") /\ DrainCall
            /\ held' = {s \in Sess : ss[s] = "accepted"}
            /\ UNCHANGED <<dseq, early, wired>> /\ Mark
@@ -144,7 +148,7 @@ TrDied == /\ Is("died")
           /\ Keep /\ Mark
 
 TraceNext == \/ TrReset \/ TrOpen \/ TrAccept \/ TrRelease \/ TrStep \/ TrQuit \/ TrHangup
-             \/ TrCancel \/ TrNewConn \/ TrDrain \/ TrDrained \/ TrEnd \/ TrDied
+             \/ TrCancel \/ TrPlainConn \/ TrNewConn \/ TrDrain \/ TrDrained \/ TrEnd \/ TrDied
 
 TraceSpec == TraceInit /\ [][TraceNext]_tvars
 
